@@ -62,13 +62,14 @@ type Exec struct {
 	ownerTags []string
 	iterSites map[*ssa.Function]int
 	exitBound map[string]bool
+	iterSeen  map[int]bool
 	qctr      int
 }
 
 func NewExec(w *World, fn *ssa.Function, spec *FuncSpec) *Exec {
 	return &Exec{w: w, top: fn, spec: spec, names: map[string]int{}, locIDs: map[string]*Term{}, locBack: map[string]*Loc{},
 		cloBack: map[string]*Closure{}, maxPaths: 4096, inlined: map[string]bool{}, assumed: map[string]bool{}, havocked: map[string]bool{},
-		loops: map[*ssa.Function]*loopInfo{}, iterSites: map[*ssa.Function]int{}, exitBound: map[string]bool{}}
+		loops: map[*ssa.Function]*loopInfo{}, iterSites: map[*ssa.Function]int{}, exitBound: map[string]bool{}, iterSeen: map[int]bool{}}
 }
 
 func fnKey(fn *ssa.Function) string {
@@ -128,7 +129,10 @@ func (x *Exec) Run() (obls []*Obligation, err error) {
 				err = se
 				return
 			}
-			panic(r)
+			if se, ok := r.(specErr); ok {
+				panic(se)
+			}
+			err = subsetErr{fmt.Sprintf("internal engine error: %v", r)}
 		}
 	}()
 	x.ownerTags = specTags(x.spec)
@@ -164,6 +168,18 @@ func (x *Exec) Run() (obls []*Obligation, err error) {
 		x.runPath(st)
 		if x.paths > x.maxPaths {
 			return nil, x.subsetf("path cap %d exceeded", x.maxPaths)
+		}
+	}
+	// every loop / iterator block of the contract must bind to a loop / iterator call site of the body
+	nloops := len(x.loopsOf(x.top).loops)
+	for ord := range x.spec.Loops {
+		if ord >= nloops {
+			return nil, x.subsetf("contract clause 'loop %d' binds to no loop of the function (it has %d)", ord, nloops)
+		}
+	}
+	for ord := range x.spec.Iters {
+		if !x.iterSeen[ord] {
+			return nil, x.subsetf("contract clause 'iter %d' binds to no iterator call site reached in the function", ord)
 		}
 	}
 	for ci, c := range x.spec.Exits {
@@ -487,6 +503,9 @@ func (x *Exec) step(s *State, fr *Frame, in ssa.Instruction) bool {
 	case *ssa.Defer:
 		d := deferred{call: &i.Call, pos: i}
 		d.fn = x.calleeValue(s, fr, &i.Call)
+		if i.Call.IsInvoke() {
+			d.args = append(d.args, x.val(s, fr, i.Call.Value))
+		}
 		for _, a := range i.Call.Args {
 			d.args = append(d.args, x.val(s, fr, a))
 		}
@@ -668,9 +687,44 @@ func (x *Exec) load(s *State, fr *Frame, addr Value, in ssa.Instruction) Value {
 		x.safeNil(s, fr, addr, in.Pos(), in)
 	}
 	l := x.ptrLoc(s, addr)
+	x.guardCheck(s, fr, l, false, in)
 	v := x.readLoc(s, l)
 	x.notePointer(s, v)
 	return v
+}
+
+// guardCheck: guarded-by discipline (C17). A field declared `guarded ... by mu` is read only with
+// the lock held (ghost $mu != 0) and written only with it write-held ($mu == 2).
+func (x *Exec) guardCheck(s *State, fr *Frame, l *Loc, write bool, in ssa.Instruction) {
+	if l.Ref == nil || len(l.Path) == 0 || l.Path[0].IsIdx || len(x.w.Guards) == 0 {
+		return
+	}
+	if _, ok := types.Unalias(l.RootT).Underlying().(*types.Struct); !ok {
+		return
+	}
+	g := x.w.Guards[fmt.Sprintf("%s.%d", x.w.structName(l.RootT), l.Path[0].Field)]
+	if g == nil {
+		return
+	}
+	fs := x.w.StructFields(l.RootT)
+	mt := fs[g.MutexField].Type
+	var muIdx = -1
+	for i, f := range x.w.StructFields(mt) {
+		if f.Name == "$mu" {
+			muIdx = i
+		}
+	}
+	if muIdx < 0 {
+		return
+	}
+	ml := &Loc{Ref: l.Ref, RootT: l.RootT, Path: []PathStep{{Field: g.MutexField, FT: mt}, {Field: muIdx, FT: types.Typ[types.Int]}}}
+	mu := x.readLoc(s, ml).Term
+	kind, goal := "lock.read", Neq(mu, IntT(0))
+	if write {
+		kind, goal = "lock.write", Eq(mu, IntT(2))
+	}
+	name := fmt.Sprintf("%s.%s@%s#%s", kind, g.Name, shortFn(fnKey(fr.fn)), x.siteOrdinal(fr.fn, in))
+	x.oblige(s, kind, name, goal, g.Tags, in.Pos(), "guarded field accessed with the lock held")
 }
 
 func (x *Exec) store(s *State, fr *Frame, addr Value, v Value, in ssa.Instruction) {
@@ -681,6 +735,7 @@ func (x *Exec) store(s *State, fr *Frame, addr Value, v Value, in ssa.Instructio
 		x.safeNil(s, fr, addr, in.Pos(), in)
 	}
 	l := x.ptrLoc(s, addr)
+	x.guardCheck(s, fr, l, true, in)
 	if l.Ref != nil {
 		x.frameCheck(s, fr, l.Ref, l.RootT, in.Pos(), in)
 	}
